@@ -773,6 +773,7 @@ static sw_t SW[SW_PRIMARY + 1];
 static int g_nsw, g_sw_budget, g_sw_creates;
 static volatile int g_exp_of, g_sw_over;
 static ABT_pool g_p0, g_q;
+static char *g_sw_ustack[SW_PRIMARY + 1];
 static void sw_entry(void *arg);
 #define SW_POOL(h) ((h) ? g_q : g_p0)
 
@@ -822,7 +823,20 @@ static void sw_new_unit(int by, int id, int to)
     n->home = rnd(3) == 0;
     ABT_thread_attr attr;
     CHK(ABT_thread_attr_create(&attr));
-    CHK(ABT_thread_attr_set_stacksize(attr, 65536));
+    /* stack provenance: malloc'ed non-default size, memory pool (default size), or
+     * user-supplied at an 8-byte-aligned address of either 16-byte phase */
+    int prov = rnd(4);
+    if (prov == 0) {
+        CHK(ABT_thread_attr_set_stacksize(attr, 65536 + 8 * rnd(5)));
+    } else if (prov == 1) {
+        /* default attributes */
+    } else {
+        if (!g_sw_ustack[id])
+            g_sw_ustack[id] = (char *)malloc(65536 + 64);
+        uintptr_t base = ((uintptr_t)g_sw_ustack[id] + 15) & ~(uintptr_t)15;
+        size_t size = 65536 - 8 * (size_t)rnd(3);
+        CHK(ABT_thread_attr_set_stack(attr, (void *)(base + (prov == 2 ? 8 : 0)), size));
+    }
     if (to) {
         sw_t *me = &SW[by];
         me->stt = S_PARKED;
